@@ -80,7 +80,7 @@ def enumerate_cases(tier):
 
 
 def budget(tier):
-    return 4000 if tier == "quick" else 40000
+    return 4000 if tier == "quick" else 500000
 
 
 def classify(case):
